@@ -63,7 +63,7 @@ Section Proofs.
     - assert (H0 : stop_test tol prev (chi2_of s) = false) by (apply (H 0); lia).
       simpl run. rewrite H0.
       rewrite (IH tol (S i) (chi2_of s) (step s)).
-      + simpl fst. simpl snd. cbn [t_iters t_conv t_num t_final t_lines].
+      + cbn [fst snd t_iters t_conv t_num t_final t_lines].
         rewrite (ents_cons prev s (S f)), (lns_cons i prev s (S f)).
         unfold tst. rewrite (pv_shift prev). rewrite Nat.add_succ_r. reflexivity.
       + intros j Hj. unfold tst. rewrite (pv_shift prev). apply (H (S j)). lia.
@@ -83,7 +83,7 @@ Section Proofs.
       + assert (H0 : stop_test tol prev (chi2_of s) = false) by (apply (Hbefore 0); lia).
         simpl run. rewrite H0.
         rewrite (IH tol (S i) (chi2_of s) (step s) j').
-        * simpl fst. simpl snd. cbn [t_iters t_conv t_num t_final t_lines].
+        * cbn [fst snd t_iters t_conv t_num t_final t_lines].
           rewrite (ents_cons prev s (S j')), (lns_cons i prev s (S j')).
           rewrite Nat.add_succ_r. reflexivity.
         * lia.
@@ -122,7 +122,7 @@ Section Proofs.
     destruct K as [|j]; [lia|].
     unfold OptLoop.optimize.
     rewrite (run_stop n tol 1 (chi2_of (prep s)) (step (prep s)) j).
-    - simpl fst. simpl snd. cbn [t_iters t_conv t_num t_final t_lines].
+    - cbn [fst snd t_iters t_conv t_num t_final t_lines].
       rewrite ents_spec, lns_spec. reflexivity.
     - lia.
     - intros j' Hj'. rewrite tst_stops. apply Hbefore; lia.
@@ -141,7 +141,7 @@ Section Proofs.
     destruct max_iter as [|n]; [lia|].
     unfold OptLoop.optimize.
     rewrite (run_nostop n tol 1 (chi2_of (prep s)) (step (prep s))).
-    - simpl fst. simpl snd. cbn [t_iters t_conv t_num t_final t_lines].
+    - cbn [fst snd t_iters t_conv t_num t_final t_lines].
       rewrite ents_spec, lns_spec, tst_stops. reflexivity.
     - intros j Hj. rewrite tst_stops. apply Hno; lia.
   Qed.
@@ -176,16 +176,21 @@ Section Proofs.
     - rewrite (optimize_full tol max_iter vb s H Hno). reflexivity.
   Qed.
 
+  Lemma nth_spec_iters_gen : forall s n a k e,
+    nth_error (spec_iters s a n) k = Some e ->
+    k < n /\ e = filled (cseq s (a + k)) (cseq s (S (a + k))).
+  Proof.
+    intros s n. induction n as [|n IH]; intros a k e H.
+    - destruct k; discriminate H.
+    - destruct k as [|k].
+      + unfold spec_iters in H. simpl in H. injection H as <-. rewrite Nat.add_0_r. split; [lia|reflexivity].
+      + unfold spec_iters in H. simpl in H. fold (spec_iters s (S a) n) in H.
+        apply IH in H. destruct H as [Hk ->]. rewrite Nat.add_succ_r. split; [lia|reflexivity].
+  Qed.
+
   Lemma nth_spec_iters : forall s n k e,
     nth_error (spec_iters s 0 n) k = Some e -> k < n /\ e = filled (cseq s k) (cseq s (S k)).
-  Proof.
-    intros s n k e H. unfold spec_iters in H.
-    assert (Hk : k < n).
-    { apply nth_error_Some_lt in H. rewrite map_length, seq_length in H. exact H. }
-    split; [exact Hk|].
-    rewrite (nth_error_map (fun k0 => filled (cseq s k0) (cseq s (S k0))) k (seq 0 n)) in H.
-    rewrite (nth_error_seq_lt 0 n k Hk) in H. simpl in H. congruence.
-  Qed.
+  Proof. intros s n k e H. apply nth_spec_iters_gen in H. exact H. Qed.
 
   Theorem C12_iter_chi2_thm : forall tol max_iter vb s k e,
     0 < max_iter ->
@@ -341,10 +346,10 @@ Section Proofs.
       rewrite EA, EB1, EB2. unfold out_state, out_report. simpl.
       rewrite prep_stepn.
       assert (EI : spec_iters (stepn k1 (prep s)) 0 k2 = spec_iters s k1 k2).
-      { unfold spec_iters. rewrite <- (seq_add_map k2 k1 0), map_map.
-        replace (k1 + 0) with k1 by lia.
-        rewrite <- (seq_add_map k2 k1 0), map_map. replace (k1 + 0) with k1 by lia.
-        apply map_ext. intros j. rewrite !cseq_after.
+      { unfold spec_iters.
+        replace (seq k1 k2) with (map (fun k => k1 + k) (seq 0 k2))
+          by (rewrite seq_add_map; f_equal; lia).
+        rewrite map_map. apply map_ext. intros j. rewrite !cseq_after.
         replace (k1 + S j) with (S (k1 + j)) by lia. reflexivity. }
       repeat split.
       - rewrite stepn_add. reflexivity.
@@ -361,12 +366,12 @@ Section Proofs.
               (0 < max_iter -> num_iterations (out_report (optimize tol max_iter vb s)) = Some N).
   Proof.
     intros tol max_iter vb s. destruct max_iter as [|n].
-    - exists 0. repeat split. intros H; lia.
+    - exists 0. split; [lia|]. split; [reflexivity|]. intros H; lia.
     - destruct (stop_cases tol s (S n)) as [[K HK]|Hno].
       + exists K. rewrite (optimize_early tol (S n) vb s K HK).
-        destruct HK as (Ha & Hb & _). repeat split. lia.
+        destruct HK as (Ha & Hb & _). split; [lia|]. split; [reflexivity|]. intros _; reflexivity.
       + exists (S n). rewrite (optimize_full tol (S n) vb s) by (try lia; exact Hno).
-        repeat split. lia.
+        split; [lia|]. split; [reflexivity|]. intros _; reflexivity.
   Qed.
 End Proofs.
 
